@@ -82,6 +82,55 @@ func (a *Act) setupLoopInvariants(li *loopInfo, phiEntry map[*ssa.Phi]Term) {
 			} else {
 				addCand(fmt.Sprintf("%s <= init", label), func(a *Act, st *State) Term { return app("<=", pv(a), a.val(init)) })
 			}
+			// bounds suggested by comparisons inside the loop: phi <= len(x), phi <= y
+			if step > 0 {
+				seenB := map[string]bool{}
+				for _, blk := range sortedBlocks(li.blocks) {
+					for _, in := range blk.Instrs {
+						bo, ok := in.(*ssa.BinOp)
+						if !ok {
+							continue
+						}
+						var other ssa.Value
+						var off int64
+						if bo.X == ssa.Value(phi) {
+							other = bo.Y
+						} else if bo.Y == ssa.Value(phi) {
+							other = bo.X
+						} else if c, ok := stepOf(bo.X, phi); ok {
+							other, off = bo.Y, c
+						} else if c, ok := stepOf(bo.Y, phi); ok {
+							other, off = bo.X, c
+						} else {
+							continue
+						}
+						offT := IntLit(off)
+						switch bo.Op {
+						case token.LSS, token.LEQ, token.GTR, token.GEQ, token.EQL, token.NEQ:
+						default:
+							continue
+						}
+						if call, ok := other.(*ssa.Call); ok {
+							if bi, ok := call.Call.Value.(*ssa.Builtin); ok && bi.Name() == "len" && a.dominatesHeader(call.Call.Args[0], li.header) {
+								arg := call.Call.Args[0]
+								if _, isSl := arg.Type().Underlying().(*types.Slice); isSl && !seenB[fmt.Sprintf("len:%s:%d", arg.Name(), off)] {
+									seenB[fmt.Sprintf("len:%s:%d", arg.Name(), off)] = true
+									addCand(fmt.Sprintf("%s+%d <= len(%s)", label, off, arg.Name()), func(a *Act, st *State) Term { return app("<=", app("+", pv(a), offT), app("s_len", a.val(arg))) })
+								}
+								continue
+							}
+						}
+						if a.dominatesHeader(other, li.header) && a.sortOf(other.Type()) == "Int" && !seenB[fmt.Sprintf("v:%s:%d", other.Name(), off)] {
+							if _, isC := other.(*ssa.Const); isC {
+								continue
+							}
+							seenB[fmt.Sprintf("v:%s:%d", other.Name(), off)] = true
+							o := other
+							addCand(fmt.Sprintf("%s+%d <= %s", label, off, other.Name()), func(a *Act, st *State) Term { return app("<=", app("+", pv(a), offT), a.val(o)) })
+						}
+					}
+				}
+			}
 			if step > 1 || step < -1 {
 				m := step
 				if m < 0 {
